@@ -1,9 +1,11 @@
 import Driver.Codec
 import Driver.Attrs
+import Driver.AgentD
 open Stun.Driver
 
 structure DState where
   codec : CState := {}
+  agent : Stun.Agent := {}
 
 def step (s : DState) (line : String) : DState × String :=
   let toks := (line.splitOn " ").filter (· ≠ "")
@@ -16,6 +18,9 @@ def step (s : DState) (line : String) : DState × String :=
     | none =>
     match stepAttrs s.codec toks with
     | some (c, out) => ({ s with codec := c }, out)
+    | none =>
+    match stepAgent s.agent toks with
+    | some (a, out) => ({ s with agent := a }, out)
     | none => (s, "bad-op")
 
 partial def loop (hin hout : IO.FS.Stream) (s : DState) : IO Unit := do
